@@ -796,6 +796,24 @@ fn parse_export_ext<'a>(input: &'a [u8], cache: &AtomCache) -> NomResult<'a, Own
     ))
 }
 
+// The encoder writes `old_index`/`old_uniq` (u32) values of 2^31 and above as SMALL_BIG_EXT,
+// so the decoder has to take them back in that form too.
+fn bigint_as_u32(big: &BigInt) -> Option<u32> {
+    if big.sign.is_negative() {
+        return None;
+    }
+    let mut value: u64 = 0;
+    for (i, digit) in big.digits.iter().enumerate() {
+        if *digit != 0 {
+            if i >= 4 {
+                return None;
+            }
+            value |= (*digit as u64) << (8 * i);
+        }
+    }
+    u32::try_from(value).ok()
+}
+
 fn parse_new_fun_ext<'a>(input: &'a [u8], cache: &AtomCache) -> NomResult<'a, OwnedTerm> {
     let (input, _size) = be_u32(input)?;
     let (input, arity) = be_u8(input)?;
@@ -812,12 +830,14 @@ fn parse_new_fun_ext<'a>(input: &'a [u8], cache: &AtomCache) -> NomResult<'a, Ow
     let (input, old_index_term) = parse_term(input, cache)?;
     let old_index = match old_index_term {
         OwnedTerm::Integer(i) if i >= 0 => i as u32,
+        OwnedTerm::BigInt(ref b) if bigint_as_u32(b).is_some() => bigint_as_u32(b).unwrap_or(0),
         _ => return Err(nom::Err::Failure(NomError::new(input, ErrorKind::Tag))),
     };
 
     let (input, old_uniq_term) = parse_term(input, cache)?;
     let old_uniq = match old_uniq_term {
         OwnedTerm::Integer(i) if i >= 0 => i as u32,
+        OwnedTerm::BigInt(ref b) if bigint_as_u32(b).is_some() => bigint_as_u32(b).unwrap_or(0),
         _ => return Err(nom::Err::Failure(NomError::new(input, ErrorKind::Tag))),
     };
 
@@ -1266,12 +1286,14 @@ fn parse_new_fun_ext_borrowed<'a>(
     let (input, old_index_term) = parse_term_borrowed(input, original_len, ctx)?;
     let old_index = match old_index_term {
         BorrowedTerm::Integer(i) if i >= 0 => i as u32,
+        BorrowedTerm::BigInt(ref b) if bigint_as_u32(b).is_some() => bigint_as_u32(b).unwrap_or(0),
         _ => return Err(nom::Err::Failure(NomError::new(input, ErrorKind::Tag))),
     };
 
     let (input, old_uniq_term) = parse_term_borrowed(input, original_len, ctx)?;
     let old_uniq = match old_uniq_term {
         BorrowedTerm::Integer(i) if i >= 0 => i as u32,
+        BorrowedTerm::BigInt(ref b) if bigint_as_u32(b).is_some() => bigint_as_u32(b).unwrap_or(0),
         _ => return Err(nom::Err::Failure(NomError::new(input, ErrorKind::Tag))),
     };
 
